@@ -9,6 +9,7 @@
 From Coq Require Import QArith Qabs List Arith Bool ZArith Lia.
 From BCT Require Import Base.Mat Base.SumQ Model.Threshold Model.Clustering
   Proofs.ClusteringSpec Proofs.Clustering Proofs.ClusteringRange Proofs.ClusteringSign Proofs.ClusteringCount.
+From BCT Require Proofs.ClusteringSelfloop.
 Import ListNotations.
 Open Scope Q_scope.
 
@@ -122,6 +123,14 @@ Proof. exact no_triangle_zero. Qed.
 Theorem C09_deg_lt2_zero : forall cbrt n W i, cbrt_ok cbrt n W -> (i < n)%nat -> nodiag n W -> few_neighbours n W i ->
   cc_bu n W i == 0 /\ cc_bd n W i == 0 /\ cc_wu cbrt n W i == 0 /\ cc_wd cbrt n W i == 0.
 Proof. exact deg_lt2_zero. Qed.
+
+(* the same WITHOUT the empty diagonal (outside the property's domain; true since the repair 366dab6, which masks a
+   vanishing denominator in clustering_coef_wu / _bd / _wd as clustering_coef_bu's `if k >= 2` does): a node with at most
+   one index j — possibly j = i, a self-connection — such that W i j <> 0 or W j i <> 0 gets exactly 0; bu / wu / wd for
+   ANY weights, bd on 0/1 input.  (Before the repair node 1 of [[1,1],[1,0]] got inf from wu / bd / wd.) *)
+Theorem C09_deg_lt2_zero_any_diagonal : forall cbrt n W i, few_neighbours n W i ->
+  cc_bu n W i == 0 /\ cc_wu cbrt n W i == 0 /\ cc_wd cbrt n W i == 0 /\ (binary n W -> (i < n)%nat -> cc_bd n W i == 0).
+Proof. exact (fun cbrt n W i H => Proofs.ClusteringSelfloop.few_zero_any_diagonal n W i H cbrt). Qed.
 
 (* clustering_coef_wu_sign, all three coef types: exact zeros (the routine clears the diagonal itself) *)
 Theorem C09_wu_sign_no_triangle_zero : forall cbrt n W i, (i < n)%nat -> no_triangle n (clear_diag W) i ->
@@ -312,3 +321,4 @@ Print Assumptions C09_no_division_by_zero_sign.
 Print Assumptions C09_tri_dir_counts.
 Print Assumptions C09_cc_bd_counting.
 Print Assumptions C09_tri_dir_weighted_enumeration.
+Print Assumptions C09_deg_lt2_zero_any_diagonal.
